@@ -1180,14 +1180,26 @@ func c15ErrorGuarded(c *Ctx) {
 							continue
 						}
 						bo, ok := iff.Cond.(*ssa.BinOp)
-						if !ok || !(bo.X == ssa.Value(errV) || bo.Y == ssa.Value(errV)) {
+						if !ok {
 							continue
 						}
-						switch bo.Op {
-						case token.EQL:
-							okBlocks = append(okBlocks, bb.Succs[0])
-						case token.NEQ:
-							okBlocks = append(okBlocks, bb.Succs[1])
+						switch {
+						case bo.X == ssa.Value(errV) || bo.Y == ssa.Value(errV):
+							// err == nil: then-side; err != nil: else-side
+							switch bo.Op {
+							case token.EQL:
+								okBlocks = append(okBlocks, bb.Succs[0])
+							case token.NEQ:
+								okBlocks = append(okBlocks, bb.Succs[1])
+							}
+						case bo.X == ssa.Value(p) || bo.Y == ssa.Value(p):
+							// a test of the pointer itself serves as well: p != nil then-side, p == nil else-side
+							switch bo.Op {
+							case token.NEQ:
+								okBlocks = append(okBlocks, bb.Succs[0])
+							case token.EQL:
+								okBlocks = append(okBlocks, bb.Succs[1])
+							}
 						}
 					}
 					bad := ""
